@@ -70,9 +70,9 @@ WellFormedReq(r) ==
     /\ (r.nchwIn = "dup_index" => r.nin >= 1) /\ (r.nchwOut = "dup_index" => r.nout >= 1)
 
 \* requests the user cannot expect to succeed: contradictory names, invalid layout selection
-\* (an input and an output may share a name exactly when they are the same value: the callable
-\*  returns that input unchanged)
-NameClash(r) == r.inNames = "collide_output" /\ ~(r.outKind = "alias_input" /\ r.nchwIn # "first")
+\* (a returned input is a leaf like any other: the model gives it an output value of its own, so an input and
+\*  an output never share a name)
+NameClash(r) == r.inNames = "collide_output"     \* every leaf is a value of its own (also a returned input): one name for both collides
 Contradictory(r) ==
     \/ r.inNames \in {"dup", "wrong_len", "collide_param"} \/ NameClash(r)
     \/ r.outNames \in {"dup", "wrong_len", "collide_param"}
